@@ -440,6 +440,20 @@ pub fn run(tier: Tier) -> i32 {
 }
 
 pub fn replay(case: &serde_json::Value) -> i32 {
+    if case.get("kind").and_then(|k| k.as_str()) == Some("parse-context") {
+        let mut acc = Acc::new();
+        let n = super::context::parse_context_leg(&mut acc);
+        println!("re-ran the {n} parse contexts");
+        return if acc.violations.is_empty() {
+            println!("verdict: holds");
+            0
+        } else {
+            for v in acc.violations.values() {
+                println!("verdict: VIOLATED — {}", v.what);
+            }
+            1
+        };
+    }
     let text = case.get("text").and_then(|t| t.as_str()).unwrap_or("");
     let entry = case.get("entry").and_then(|t| t.as_str()).unwrap_or("Expr::parse");
     let g = Grammar::new();
